@@ -491,6 +491,21 @@ def run(tier):
     import json, os
     if os.environ.get("C11_DUMP"):
         json.dump(FAILING, open(os.environ["C11_DUMP"], "w"), indent=1, default=str)
+    if tier == "thorough":
+        for lname in ("three entries, canonical", "entries with all parts", "entry then substvar", "alternatives wrapped after the pipe"):
+            layout = LAYOUTS[lname]
+            m0 = [list(e) for e in layout[0] if e]
+            firsts = field_ops(len(m0)) + entry_ops(m0) + relation_ops(m0)
+            for a in firsts:
+                try:
+                    m1, _ = apply_model(m0, a)
+                except (IndexError, KeyError):
+                    continue
+                seconds = field_ops(len(m1)) + entry_ops(m1) + relation_ops(m1)
+                for b in seconds[::3]:
+                    cx = Ctx(F, cells)
+                    r = run_history(cx, C, F, lname, layout, [a, b], cells)
+                    n += 1 if r is not None else 0
     SAME_HANDLE = [
         (("set_architectures", (0, 0), [(False, "amd64")], None), ("add_profile", (0, 0), [(True, "nocheck")], None)),
         (("set_architectures", (0, 0), [(False, "amd64")], None), ("set_version", (0, 0), (">=", "3"), None)),
